@@ -86,12 +86,13 @@ def restoring (tr : Option TRO) : Bool :=
   | none => false
   | some t => t.holders.isEmpty && (t.phase == .progressing || t.phase == .finalizing || t.phase == .terminating)
 
-/-- **C05.bind_finalise_waits_for_restore** (full strength; FALSE on the unchanged code, finding
-    `completedBeforeRestored`) — … and, when no other rollout holds it, the TrafficRouting reports Healthy (or is gone) -/
+/-- NOT an oracle of any property (it is stronger than C05, which judges the final quiescent state: the asynchronous
+    TrafficRouting controller restores the gateway afterwards, theorem `released_means_restored`); kept because
+    `finalise_waits_for_restore_full_FALSE` documents the code's behaviour with it — … and, when no other rollout holds it, the TrafficRouting reports Healthy (or is gone) -/
 def finaliseWaitsForRestore (i : Nat) (pos : Pos) (e e' : Entry) (post : Option TRO) : Bool :=
   finaliseFinalizerOff i pos e e' post && !(e.bound && pos == .fin && cleanupMoved e e' && restoring post)
 
-/-- the guard of finding `completedBeforeRestored` -/
+/-- the observation `completedBeforeRestored` (a tag in the evidence, not a finding) -/
 def guardCompletedBeforeRestored (pos : Pos) (e e' : Entry) (post : Option TRO) : Bool :=
   e.bound && pos == .fin && cleanupMoved e e' && restoring post
 
